@@ -107,7 +107,10 @@ benign("c01-detach-filter-not-is", ["C01", "C02", "C16"], both(
 
 seeded("c02-attach-at-front", ["C02"], both("            parentchildren.append(self)\n", "            parentchildren.insert(0, self)\n"), ["E4"])
 seeded("c02-no-noop-guard", ["C02", "C16"], both("        if parent is not value:\n", "        if True:\n"), ["E1", "H3"])
-seeded("c02-noop-guard-on-equality-of-none", ["C02"], both("        if parent is not value:\n", "        if parent is not value or value is None:\n"), ["E1"])
+# (was listed as seeded until round 19: with `or value is None` the body is also entered for None -> None, but __detach(None) and
+# __attach(None) are guarded by `is not None` themselves, so no hook fires and no link is written: behaviour-preserving.  E1 now
+# accepts effects behind "new value is None and stored parent is not None", which is what those guards establish.)
+benign("c02-noop-guard-on-equality-of-none", ["C02"], both("        if parent is not value:\n", "        if parent is not value or value is None:\n"))
 seeded("c02-attach-loop-reversed", ["C02"], both(
     "            for child in children:\n                child.parent = self\n",
     "            for child in reversed(children):\n                child.parent = self\n"), ["E5"])
